@@ -149,7 +149,7 @@ func classify(c Case) (bool, []string) {
 func TestDeterminism(t *testing.T) {
 	harness.Run(t, harness.Spec[Case]{
 		Name: "determinism", N: 2500,
-		Rule: "histories biased to what breaks ordering: 3..8 children with 4..12 versions each, frequent same-second clusters, parents with more than a dozen updates (Go's sort leaves insertion sort above 12 elements), commit and pre-commit regimes, with and without deletions/missing histories; relation parents of type route or multipolygon (way members then have located nodes and outer/inner roles, so the serialisation includes their orientation), a third of them with child ids unique per kind only (node/1, way/1 and relation/1 in one parent); every case is annotated 8 times on freshly built equal input (Go randomises map iteration per range statement); oracle = all runs fail or all succeed with identical serialisation of annotated children and update lists, and every update list is sorted by (index, timestamp, version); non-trivial = a parent with >= 13 updates and at least two updates sharing (index, timestamp)",
+		Rule: "histories biased to what breaks ordering: 3..8 children with 4..12 versions each, frequent same-second clusters, parents with more than a dozen updates (Go's sort leaves insertion sort above 12 elements), commit and pre-commit regimes, with and without deletions/missing histories, a quarter with clock skew (neighbouring versions of a child swap their times, so time and version order disagree); relation parents of type route or multipolygon (way members then have located nodes and outer/inner roles, so the serialisation includes their orientation), a third of them with child ids unique per kind only (node/1, way/1 and relation/1 in one parent); every case is annotated 8 times on freshly built equal input (Go randomises map iteration per range statement); oracle = all runs fail or all succeed with identical serialisation of annotated children and update lists, and every update list is sorted by (index, timestamp, version); non-trivial = a parent with >= 13 updates and at least two updates sharing (index, timestamp)",
 		Gen: func(t *rapid.T) Case {
 			o := histgen.Opts{ManyUpdates: true, NoErrors: rapid.IntRange(0, 5).Draw(t, "noErrors") != 0}
 			if rapid.IntRange(0, 5).Draw(t, "pre") == 0 {
@@ -157,10 +157,105 @@ func TestDeterminism(t *testing.T) {
 			}
 			c := histgen.Gen(t, o)
 			c.AsChildren = false
+			if rapid.IntRange(0, 3).Draw(t, "skew") == 0 {
+				// clock skew: two neighbouring versions of a child swap their
+				// times, so time order and version order disagree. Only the
+				// ordering and determinism claims are judged here.
+				for k := rapid.IntRange(1, 3).Draw(t, "nskew"); k > 0; k-- {
+					ci := rapid.IntRange(0, len(c.Children)-1).Draw(t, "skewChild")
+					if vs := c.Children[ci].Versions; len(vs) >= 2 {
+						i := rapid.IntRange(0, len(vs)-2).Draw(t, "skewAt")
+						vs[i].At, vs[i+1].At = vs[i+1].At, vs[i].At
+					}
+				}
+			}
 			return c
 		},
 		Check:    check,
 		Classify: classify,
 		Floors:   map[string]float64{">=13-updates-on-a-parent": 0.2, "same-index-and-timestamp": 0.3},
+	})
+}
+
+// ---------------------------------------------------------------- the ordering itself, over the whole range of time.Time
+
+type SortCase struct {
+	Ups []SU
+}
+
+type SU struct {
+	Index, Version int
+	T              int // index into sortTimes
+	Zone           int
+}
+
+var sortZones = []*time.Location{time.UTC, time.FixedZone("", 0), time.FixedZone("", 3600), time.FixedZone("", -(5*3600 + 1800))}
+
+var sortTimes = []time.Time{
+	time.Date(1, 1, 1, 0, 0, 0, 0, time.UTC), time.Date(1600, 6, 1, 0, 0, 0, 0, time.UTC), time.Date(1677, 9, 21, 0, 12, 43, 0, time.UTC), time.Date(1677, 9, 21, 0, 12, 44, 0, time.UTC),
+	time.Date(1969, 12, 31, 23, 59, 59, 0, time.UTC), time.Date(1970, 1, 1, 0, 0, 0, 0, time.UTC), time.Date(2015, 3, 1, 12, 0, 0, 0, time.UTC), time.Date(2015, 3, 1, 12, 0, 0, 1, time.UTC),
+	time.Date(2015, 3, 1, 12, 0, 0, 500000000, time.UTC), time.Date(2015, 3, 1, 12, 0, 1, 0, time.UTC), time.Date(2262, 4, 11, 23, 47, 16, 0, time.UTC), time.Date(2262, 4, 11, 23, 47, 17, 0, time.UTC),
+	time.Date(2300, 1, 1, 0, 0, 0, 0, time.UTC), time.Date(9999, 12, 31, 23, 59, 59, 0, time.UTC), {},
+}
+
+func TestSortByIndex(t *testing.T) {
+	harness.Run(t, harness.Spec[SortCase]{
+		Name: "sort-by-index", N: 4000,
+		Rule: "update lists of 0..40 entries over 1..4 indexes, versions 0..5 and 15 instants spanning the whole range of time.Time (year 1, 1600, the int64-nanosecond limits in 1677 and 2262, around 1970, nanosecond/half-second/second neighbours in 2015, 2300, 9999, the zero time), each carried in one of four locations; oracle = after Updates.SortByIndex the list is a permutation of the input ordered by (index, instant, version); non-trivial = >= 13 entries with two sharing (index, instant)",
+		Gen: func(t *rapid.T) SortCase {
+			n := rapid.SampledFrom([]int{0, 1, 2, 5, 12, 13, 14, 20, 40}).Draw(t, "n")
+			nidx := rapid.IntRange(1, 4).Draw(t, "nidx")
+			var c SortCase
+			for i := 0; i < n; i++ {
+				c.Ups = append(c.Ups, SU{Index: rapid.IntRange(0, nidx-1).Draw(t, "idx"), Version: rapid.IntRange(0, 5).Draw(t, "ver"), T: rapid.IntRange(0, len(sortTimes)-1).Draw(t, "t"), Zone: rapid.IntRange(0, 3).Draw(t, "zone")})
+			}
+			return c
+		},
+		Check: func(c SortCase) error {
+			var us osm.Updates
+			count := map[string]int{}
+			key := func(u osm.Update) string {
+				return fmt.Sprintf("%d/%d/%d/%d", u.Index, u.Version, u.Timestamp.Unix(), u.Timestamp.Nanosecond())
+			}
+			for _, x := range c.Ups {
+				u := osm.Update{Index: x.Index, Version: x.Version, Timestamp: sortTimes[x.T].In(sortZones[x.Zone])}
+				us = append(us, u)
+				count[key(u)]++
+			}
+			us.SortByIndex()
+			if len(us) != len(c.Ups) {
+				return harness.Failf("C12/sort-not-permutation", "SortByIndex changed the length from %d to %d", len(c.Ups), len(us))
+			}
+			for _, u := range us {
+				count[key(u)]--
+			}
+			for k, n := range count {
+				if n != 0 {
+					return harness.Failf("C12/sort-not-permutation", "SortByIndex output is not a permutation of its input (entry %s: %+d)", k, -n)
+				}
+			}
+			for i := 1; i < len(us); i++ {
+				a, b := us[i-1], us[i]
+				ordered := a.Index < b.Index ||
+					(a.Index == b.Index && a.Timestamp.Before(b.Timestamp)) ||
+					(a.Index == b.Index && a.Timestamp.Equal(b.Timestamp) && a.Version <= b.Version)
+				if !ordered {
+					return harness.Failf("C12/update-order", "SortByIndex: entries %d and %d are not ordered by (index, time, version): %+v then %+v (list of %d)", i-1, i, a, b, len(us))
+				}
+			}
+			return nil
+		},
+		Classify: func(c SortCase) (bool, []string) {
+			seen := map[[2]int]bool{}
+			dup := false
+			for _, x := range c.Ups {
+				k := [2]int{x.Index, x.T}
+				if seen[k] {
+					dup = true
+				}
+				seen[k] = true
+			}
+			return len(c.Ups) >= 13 && dup, nil
+		},
 	})
 }
